@@ -167,6 +167,9 @@ func (r *Run) Finish() {
 	}
 	cov["distinct_nontrivial"] = len(r.distinct)
 	cov["rule"] = r.Rule
+	if r.samples == nil {
+		r.samples = []any{}
+	}
 	cov["samples"] = r.samples
 	cov["exhaustive"] = r.Exhaustive
 	if len(r.Notes) > 0 {
